@@ -22,6 +22,10 @@ ASSUMPTIONS = ["membership (in/contains) on arrays uses the host language's list
                "define the element equality"]
 
 NAMES = ["a", "b", "c", "d", "0", "1", "k", "s"]
+# member names that BEGIN with a keyword of the filter language: written bare (shorthand, in brackets, after `..`, as the
+# first segment of a root-less query) they are names, not the keyword followed by something
+KEYWORDISH = ["nilsson", "Nile", "nil_count", "nullable", "nonesuch", "Nonesuch", "trueish", "Truest", "falsey", "android", "order",
+              "inner", "notable", "containsx", "undefinedx", "missingx", "nil", "null", "and", "or", "in", "true"]
 
 
 def gen(rng, tier):
@@ -31,6 +35,13 @@ def gen(rng, tier):
         q = Q.gen_ext_query(rng, doc)
         yield {"query": q, "doc": doc, "ctx": Q.CTX, "seed": rng.randrange(1 << 30), "std": False,
                "implicit_root": rng.random() < 0.15}
+    for _ in range(n // 5):
+        names = NAMES[:3] + rng.sample(KEYWORDISH, 4)
+        doc = gen_container(rng, 3, 3, names)
+        segs = Q.gen_segs_for_doc(rng, doc, 3)
+        q = {"first": {"fake": False, "segs": segs}, "rest": []}
+        yield {"query": q, "doc": doc, "ctx": Q.CTX, "seed": rng.randrange(1 << 30), "std": False, "implicit_root": rng.random() < 0.4,
+               "bare": True}
     # alias pairs: the same AST rendered with alias spellings and with standard spellings must agree;
     # the AST is the same, so the specification result is the same: rendering twice covers it
     for _ in range(n // 3):
@@ -44,10 +55,13 @@ def gen(rng, tier):
 
 def render(case):
     sp = Q.Speller(random.Random(case["seed"]), blanks=0.1, std=case["std"])
+    if case.get("bare") and not case["std"]:
+        sp.bare = 0.4
     q = case["query"]
+    first = q["first"]["segs"][0] if q["first"]["segs"] else None
     text = Q.render_path(q["first"], sp, implicit_root=case.get("implicit_root", False) and not q["first"]["fake"]
-                         and bool(q["first"]["segs"]) and q["first"]["segs"][0] != "desc"
-                         and isinstance(q["first"]["segs"][0], list) and q["first"]["segs"][0][0] == "list")
+                         and first is not None and first != "desc" and isinstance(first, list)
+                         and (first[0] == "list" or (case.get("bare") and first[0] == "sel" and isinstance(first[1], list))))
     for op, p in q["rest"]:
         text += " " + ("|" if op == "union" else "&") + " " + Q.render_path(p, sp)
     return text
